@@ -316,11 +316,14 @@ def insertSorted (x : Nat) : List Nat → List Nat
   | [] => [x]
   | y :: ys => if x < y then x :: y :: ys else if x = y then y :: ys else y :: insertSorted x ys
 
+/-- `chk`: the builder calls each of its own targets with a default-hitting and a table-hitting argument -/
+def chkSecs (tg : List Loc) : List Sec := tg.flatMap (fun f => [Sec.call f 3, Sec.call f 1])
+
 /-- sections of a builder program; `m` = targets in the builder's mocker map so far -/
 def compileOps (tg : List Loc) : List BOp → List Loc → List Sec
   | [], _ => []
   | .mock f r wo :: rest, m => [.replace f r wo, .apply f] ++ compileOps tg rest (insertSorted f m)
-  | .chk :: rest, m => tg.map (fun f => Sec.call f 3) ++ compileOps tg rest m
+  | .chk :: rest, m => chkSecs tg ++ compileOps tg rest m
   | .reset :: rest, m => m.map Sec.unpatch ++ compileOps tg rest m
   | .ext f :: rest, m => (if f ∈ m then [Sec.retab f] else []) ++ compileOps tg rest m
 
@@ -331,6 +334,6 @@ def mockedAfter : List BOp → List Loc → List Loc
 
 /-- the program class of the generator: any operation sequence, then `reset` and a final check of all own targets -/
 def builderProg (tg : List Loc) (ops : List BOp) : List Sec :=
-  compileOps tg ops [] ++ ((mockedAfter ops []).map Sec.unpatch ++ tg.map (fun f => Sec.call f 3))
+  compileOps tg ops [] ++ ((mockedAfter ops []).map Sec.unpatch ++ chkSecs tg)
 
 end Conc
